@@ -320,7 +320,8 @@ Proof.
   - destruct (data_of s o); [|auto with plain]. destruct (save_direct _ o); auto with plain.
   - destruct (save_direct _ o); auto with plain.
   - auto with plain.
-  - destruct (data_of s o); auto with plain.
+  - destruct (data_of s o) as [d|]; [|auto with plain]. destruct (kv_get d k); [|auto with plain].
+    destruct (save_direct _ o); auto with plain.
   - pose proof (login_plain s o u exclusive) as H. destruct (login s o u exclusive) as [[s1 r] cks]. exact H.
   - destruct (logout s o); auto with plain.
   - pose proof (regenerate_plain s o) as H. destruct (regenerate s o) as [[s1 r] cks]. exact H.
